@@ -203,6 +203,10 @@ var failFirst = map[string]bool{}
 // is turned down with an error before anything is attempted (LoopT).
 var failByPanic bool
 
+// originTwice: mockers of a target with an origin placeholder apply a second origin-calling callback before
+// they re-stub (scenario option).
+var originTwice bool
+
 // mockerBody is the per-builder script: apply a callback, call, re-stub with Return, call,
 // reset, call. Observations are appended to out.
 func mockerBody(tg *target, out *[]obs, yield func(string)) {
@@ -232,6 +236,17 @@ func mockerBody(tg *target, out *[]obs, yield func(string)) {
 		})
 		yield("after-apply")
 		*out = append(*out, obs{tg.name, "after Apply(cb calling origin)", tg.fn(arg), arg + tg.k + 50000})
+		if originTwice {
+			// a second callback with the same origin placeholder while the first is still applied
+			b.Func(tg.fn).Origin(tg.origin).Apply(func(a int) int {
+				if vk.InCallAlready() {
+					return (*tg.origin)(a)
+				}
+				return (*tg.origin)(a) + 51000
+			})
+			yield("after-second-apply")
+			*out = append(*out, obs{tg.name, "after a second Apply(cb calling origin)", tg.fn(arg), arg + tg.k + 51000})
+		}
 	} else if tg.name == "G1" || tg.name == "G2" {
 		// a callback on a generic function receives the type dictionary in place of its first
 		// argument (recorded in DESIGN 9.4, outside the statements): the generic target is stubbed
@@ -305,6 +320,7 @@ func scenario(sn Scn) (sched.Scenario, func() []obs) {
 		steadySeq = sn.Steady == "sequence"
 		failFirst = map[string]bool{}
 		failByPanic = sn.Steady == "panic-first"
+		originTwice = sn.Steady == "origin-twice"
 		if sn.Steady == "fail-first" || sn.Steady == "panic-first" {
 			failFirst[sn.Mockers[0]] = true
 		}
@@ -355,6 +371,13 @@ func scenario(sn Scn) (sched.Scenario, func() []obs) {
 			}
 		}
 		expectObs := 3*len(sn.Mockers) + sn.Callers*sn.CallsPer + len(failFirst)
+		if originTwice {
+			for _, name := range sn.Mockers {
+				if targets[name].origin != nil {
+					expectObs++
+				}
+			}
+		}
 		if len(all()) != expectObs {
 			return fmt.Sprintf("incomplete: %d of %d observations", len(all()), expectObs)
 		}
@@ -419,6 +442,7 @@ func scenarios(thorough bool) []Scn {
 		{"2generic", []string{"G1", "G2"}, 0, 0, ""},
 		{"refused-apply+plain/2mockers", []string{"F1", "F2"}, 1, 1, "fail-first"},
 		{"panicking-apply+plain/2mockers", []string{"F1", "F2"}, 1, 1, "panic-first"},
+		{"origin-reapplied+plain/2mockers", []string{"F1", "F2"}, 1, 1, "origin-twice"},
 	}
 	if thorough {
 		s = append(s,
@@ -442,6 +466,10 @@ func warmUp() {
 	failByPanic = true
 	mockerBody(targets["F1"], &sink, func(string) {})
 	failByPanic = false
+	failFirst = map[string]bool{}
+	originTwice = true
+	mockerBody(targets["F2"], &sink, func(string) {})
+	originTwice = false
 	failFirst = map[string]bool{}
 	b0 := installSteady()
 	callerBody(0, 1, &sink, func(string) {})
